@@ -113,7 +113,10 @@ def statistics_values(c, n=3, N=9):
         t = Samples(A + off, cuqi.geometry.Continuous1D(n))
         c.eq(f'offset={off:g}:variance_is_that_of_the_centred_chain', t.variance(), np.var(A, axis=-1), tol=1e-5)
         c.eq(f'offset={off:g}:std_is_that_of_the_centred_chain', t.std(), np.std(A, axis=-1), tol=1e-5)
-        c.eq(f'offset={off:g}:mean_shifts_with_the_chain', t.mean() - off, np.mean(A, axis=-1), tol=1e-5)
+        if c.sym: c.eq(f'offset={off:g}:mean_shifts_with_the_chain', t.mean() - off, np.mean(A, axis=-1), tol=1e-5)
+        else:                                   # forming a + off and subtracting off again each round to eps*|off|: that much absolute error is the floats', not the library's
+            err = np.abs(np.asarray(t.mean(), dtype=float) - off - np.mean(A, axis=-1))
+            c.holds(f'offset={off:g}:mean_shifts_with_the_chain', bool(np.all(err <= 1e-5 * np.abs(np.mean(A, axis=-1)) + 64 * np.finfo(float).eps * abs(off))), note=f"error {err.max():.3g}")
         c.eq(f'offset={off:g}:ci_width_is_that_of_the_centred_chain', t.ci_width(p), s.ci_width(p), tol=1e-5)
 
 
@@ -251,10 +254,28 @@ def diagnostics_of_function_values(c):
         SM._check_for_arviz = old[1]
 
 
+def joint_burnthin_native(c):
+    """JointSamples.burnthin on real arrays for every (Nb, Nt) in a grid, including burn-in not divisible by the thinning: each member is exactly the
+    stored draws Nb, Nb+Nt, Nb+2Nt, ... of that member (the same columns for all members), with geometry and representation flags kept and the source
+    untouched (bounded stand-in for the case the symbolic job cannot follow)"""
+    N = 23
+    A = np.arange(2 * N, dtype=float).reshape(2, N) + 0.5 * c.real('a'); B = -np.arange(3 * N, dtype=float).reshape(3, N) + 0.25 * c.real('b')
+    ga, gb = cuqi.geometry.Discrete(2), cuqi.geometry.Continuous1D(3)
+    JS = JointSamples({'x': Samples(A.copy(), ga), 'y': Samples(B.copy(), gb, is_par=False)})
+    for Nb in (0, 1, 3, 5, 7, 10):
+        for Nt in (1, 2, 3, 4):
+            out = JS.burnthin(Nb, Nt)
+            for nm, M, g in (('x', A, ga), ('y', B, gb)):
+                c.eq(f'Nb={Nb}:Nt={Nt}:{nm}:draws_are_stored_draws_Nb_Nb+Nt_...', np.asarray(out[nm].samples), M[:, Nb::Nt], tol=0)
+                c.holds(f'Nb={Nb}:Nt={Nt}:{nm}:geometry_and_flags_kept', out[nm].geometry == g and out[nm].is_par == JS[nm].is_par and out[nm].is_vec == JS[nm].is_vec)
+    c.eq('source_untouched:x', JS['x'].samples, A, tol=0); c.eq('source_untouched:y', JS['y'].samples, B, tol=0)
+
+
 def jobs(tier):
     J = []
     F = lambda *n: [f"{S}:{x}" for x in n]
     J.append(Job('Samples.burnthin:symbolic_N_Nb_Nt', lambda c: burnthin_symbolic(c, 'Samples'), 'Pinf', F('Samples.burnthin', 'Samples.Ns'), num=False))
+    J.append(Job('JointSamples.burnthin:native_grid_of_Nb_Nt', joint_burnthin_native, 'B', F('JointSamples.burnthin', 'Samples.burnthin'), nnum=1))
     J.append(Job('JointSamples.burnthin:symbolic_N_Nb_Nt', lambda c: burnthin_symbolic(c, 'Joint'), 'Pinf', F('JointSamples.burnthin', 'Samples.burnthin'), num=False))
     J.append(Job('slice_axiom:cpython_conformance', slice_axiom_conformance, 'Pbox', [], num=False))
     J.append(Job('Samples.burnthin:values:vector', lambda c: burnthin_concrete(c, (2,), 7), 'Pbox', F('Samples.burnthin')))
